@@ -101,7 +101,7 @@ Fixpoint judge_steps (sc : schema) (maxsize cfg : N) (i : N) (steps : list step)
       | o =>
           let '(s', m) := apply_spec sc maxsize (s_batch st) s in
           if negb (out_ok o m) then 101 + 1000 * (i + 1)
-          else if (cfg =? 4) && in_tx_reject m then 0
+          else if ((cfg =? 4) || (cfg =? 5)) && in_tx_reject m then 0
           else if negb (s_count st =? N.of_nat (length s')) then 102 + 1000 * (i + 1)
           else if negb (store_eqb (s_live st) s') then 103 + 1000 * (i + 1)
           else
